@@ -66,9 +66,87 @@ func genWidth(t *rapid.T, B int) int {
 	}
 }
 
+// fracVal returns t * c^{-1} mod q (nil when c is not invertible).
+func fracVal(q *big.Int, t, c *big.Int) *big.Int {
+	inv := new(big.Int).ModInverse(new(big.Int).Mod(c, q), q)
+	if inv == nil {
+		return nil
+	}
+	inv.Mul(inv, t)
+	return inv.Mod(inv, q)
+}
+
+// genFracVal draws a field element that is a small multiple of the inverse of
+// a small power of two, v = k * 2^(-s) mod q (or t * c^(-1) for small t, c):
+// huge as an integer, but v * 2^s is small - exactly what an aligning
+// multiplication by 2^(limb-width) maps into the table. shifts are exponents
+// worth trying first (width, width-1, limb width - width, ...).
+func genFracVal(t *rapid.T, q *big.Int, n int, prio, shifts []int) *big.Int {
+	if len(prio) > 0 && rapid.IntRange(0, 2).Draw(t, "frac-prio") != 0 {
+		// s = limb width - width, k below the table size: v*2^(limb-width) is a table entry
+		s := rapid.SampledFrom(prio).Draw(t, "frac-s-prio")
+		k := drawBig(t, pow2(n+s), "frac-k-prio")
+		if rapid.Bool().Draw(t, "frac-k-prio-odd") {
+			k.SetBit(k, 0, 1)
+		}
+		if v := fracVal(q, k, pow2(s)); v != nil {
+			return v
+		}
+	}
+	if rapid.IntRange(0, 5).Draw(t, "frac-general") == 0 {
+		c := big.NewInt(int64(rapid.IntRange(2, 40).Draw(t, "frac-c")))
+		k := big.NewInt(int64(rapid.IntRange(1, 40).Draw(t, "frac-t")))
+		if v := fracVal(q, k, c); v != nil {
+			return v
+		}
+	}
+	var s int
+	cand := []int{}
+	for _, x := range shifts {
+		if x >= 1 && x <= 40 {
+			cand = append(cand, x)
+		}
+	}
+	if len(cand) > 0 && rapid.IntRange(0, 2).Draw(t, "frac-hinted") != 0 {
+		s = rapid.SampledFrom(cand).Draw(t, "frac-s-hint")
+	} else {
+		s = rapid.IntRange(1, 19).Draw(t, "frac-s")
+	}
+	var k *big.Int
+	switch rapid.IntRange(0, 4).Draw(t, "frac-k-class") {
+	case 0:
+		k = big.NewInt(1)
+	case 1:
+		k = big.NewInt(int64(2*rapid.IntRange(0, 7).Draw(t, "frac-k-odd") + 1))
+	case 2:
+		k = big.NewInt(int64(rapid.IntRange(1, 40).Draw(t, "frac-k-small")))
+	default:
+		// any k below 2^(n+s) (capped): v*2^s stays below 2^(width+s)
+		e := n + s
+		if e > 20 {
+			e = 20
+		}
+		k = drawBig(t, pow2(e), "frac-k")
+		k.SetBit(k, 0, 1) // odd: not a multiple of 2^s
+	}
+	v := fracVal(q, k, pow2(s))
+	if v == nil {
+		return new(big.Int).Set(q).Sub(q, big.NewInt(1))
+	}
+	return v
+}
+
 // genVal draws a value for a width-n check; in tells whether it must satisfy v < 2^n.
 // The second result is false when no out-of-range value exists (2^n >= q).
-func genVal(t *rapid.T, q *big.Int, n int, in bool) (*big.Int, bool) {
+// shifts: exponents s for the class v = k*2^(-s) (see genFracVal).
+func genVal(t *rapid.T, q *big.Int, n int, in bool, shifts ...int) (*big.Int, bool) {
+	// the first two shifts are (limb width - width) for the two builders
+	var prio []int
+	for i, x := range shifts {
+		if i < 2 && x >= 1 {
+			prio = append(prio, x)
+		}
+	}
 	lim := pow2(n)
 	one := big.NewInt(1)
 	if lim.Cmp(q) >= 0 {
@@ -103,7 +181,11 @@ func genVal(t *rapid.T, q *big.Int, n int, in bool) (*big.Int, bool) {
 		}
 		return x
 	}
-	switch rapid.IntRange(0, 9).Draw(t, "vout") {
+	top := 13
+	if len(prio) > 0 {
+		top = 19 // width below the limb width: favour the aliasing class
+	}
+	switch rapid.IntRange(0, top).Draw(t, "vout") {
 	case 0, 1:
 		return new(big.Int).Set(lim), false // 2^n
 	case 2:
@@ -121,12 +203,15 @@ func genVal(t *rapid.T, q *big.Int, n int, in bool) (*big.Int, bool) {
 	case 8:
 		// a multiple of 2^n: all low limbs zero
 		return cap(new(big.Int).Mul(lim, big.NewInt(int64(rapid.IntRange(2, 1000).Draw(t, "mult"))))), false
-	default:
+	case 9:
 		return cap(new(big.Int).Add(lim, drawBig(t, new(big.Int).Sub(q, lim), "vout-rand"))), false
+	default:
+		// small multiples of inverses of small powers of two
+		return cap(genFracVal(t, q, n, prio, append([]int{n, n - 1, n + 1}, shifts...))), false
 	}
 }
 
-// genRCs draws 0..maxN range checks. bad: how many should be out of range (-1: any).
+// genRCs draws minN..maxN range checks, nBad of them out of range.
 func genRCs(t *rapid.T, q *big.Int, minN, maxN int, nBad int, allowConst bool) []RC {
 	B := q.BitLen()
 	var n int
@@ -146,17 +231,49 @@ func genRCs(t *rapid.T, q *big.Int, minN, maxN int, nBad int, allowConst bool) [
 	if n > maxN {
 		n = maxN
 	}
-	profile := rapid.IntRange(0, 4).Draw(t, "width-profile") // 0,1,2 mixed; 3 one width; 4 wide only
+	// 0,1,2 mixed; 3 one width; 4 wide only; 5,6 a few narrow widths next to many wide ones
+	// (the narrow widths then lie strictly below the chosen limb width)
+	profile := rapid.IntRange(0, 6).Draw(t, "width-profile")
 	if profile == 4 && maxN >= 16 && rapid.Bool().Draw(t, "many-wide") {
 		// many wide variables: pushes the chosen limb width to its maximum
 		n = rapid.IntRange(maxN*2/3, maxN).Draw(t, "nrc-many")
 	}
+	narrow := map[int]bool{}
+	if profile >= 5 {
+		if maxN < 4 {
+			profile = 0
+		} else {
+			lo := 6
+			if lo > maxN {
+				lo = maxN
+			}
+			if n < lo {
+				n = rapid.IntRange(lo, maxN).Draw(t, "nrc-narrow-mix")
+			}
+			for k := rapid.IntRange(1, 3).Draw(t, "n-narrow"); k > 0; k-- {
+				narrow[rapid.IntRange(0, n-1).Draw(t, "narrow-at")] = true
+			}
+		}
+	}
 	same := genWidth(t, B)
+	wideKind := rapid.IntRange(0, 2).Draw(t, "wide-kind") // profile 5,6: 0 all 64, 1 all 8 (bytes), 2 wide random
 	badAt := map[int]bool{}
 	for i := 0; i < nBad && i < n; i++ {
+		if len(narrow) > 0 && rapid.IntRange(0, 3).Draw(t, "bad-narrow") != 0 {
+			// put the out-of-range value on a narrow variable
+			var ks []int
+			for k := 0; k < n; k++ {
+				if narrow[k] {
+					ks = append(ks, k)
+				}
+			}
+			badAt[rapid.SampledFrom(ks).Draw(t, "bad-at-narrow")] = true
+			continue
+		}
 		badAt[rapid.IntRange(0, n-1).Draw(t, "bad-at")] = true
 	}
-	var rcs []RC
+	// first pass: widths and kinds
+	rcs := make([]RC, n)
 	for i := 0; i < n; i++ {
 		w := same
 		switch profile {
@@ -164,6 +281,20 @@ func genRCs(t *rapid.T, q *big.Int, minN, maxN int, nBad int, allowConst bool) [
 			w = genWidth(t, B)
 		case 4:
 			w = rapid.IntRange(B/2, B-1).Draw(t, "wide")
+		case 5, 6:
+			switch {
+			case narrow[i]:
+				w = rapid.IntRange(1, 7).Draw(t, "narrow-width")
+			case wideKind == 0:
+				w = 64
+			case wideKind == 1:
+				w = 8
+			default:
+				w = rapid.IntRange(B/2, B-1).Draw(t, "wide")
+			}
+			if w > B-1 {
+				w = B - 1
+			}
 		}
 		if badAt[i] && pow2(w).Cmp(q) >= 0 {
 			// no out-of-range value exists for this width: take a narrower one
@@ -180,23 +311,27 @@ func genRCs(t *rapid.T, q *big.Int, minN, maxN int, nBad int, allowConst bool) [
 		case 3, 4:
 			kind = "e"
 		case 5:
-			if i > 0 {
+			if i > 0 && !badAt[i] && !narrow[i] {
 				kind = "r"
 			}
 		}
-		r := RC{Bits: w, Kind: kind}
-		if kind == "r" {
-			r.Val = rcs[i-1].Val
+		rcs[i] = RC{Bits: w, Kind: kind}
+		if kind == "e" {
+			rcs[i].Off = int64(rapid.IntRange(1, 1000).Draw(t, "off"))
+		}
+	}
+	// the limb widths the two builders will choose for this mix
+	b1, b2 := replicaWidth(prog.R1CS, rcs), replicaWidth(prog.SCS, rcs)
+	// second pass: values
+	for i := range rcs {
+		if rcs[i].Kind == "r" {
 			// the same variable under another width: in range iff the value fits
-			rcs = append(rcs, r)
+			rcs[i].Val = rcs[i-1].Val
 			continue
 		}
-		if kind == "e" {
-			r.Off = int64(rapid.IntRange(1, 1000).Draw(t, "off"))
-		}
-		v, _ := genVal(t, q, w, !badAt[i])
-		r.Val = v.String()
-		rcs = append(rcs, r)
+		w := rcs[i].Bits
+		v, _ := genVal(t, q, w, !badAt[i], b1-w, b2-w, b1, b2)
+		rcs[i].Val = v.String()
 	}
 	return rcs
 }
